@@ -38,3 +38,11 @@ theorem inv_reach {S : Type} (Inv : S → Prop) (step : S → S → Prop)
   induction hr with
   | refl => exact hs
   | tail _ hst ih => exact h _ _ ih hst
+
+/-- Row-major flattening of two indices is inverted by div / mod (used for view(-1, K) followed by view(batch..., N)). -/
+theorem flat_div (a b n : ℕ) (hb : b < n) : (a * n + b) / n = a := by
+  have hn : 0 < n := Nat.lt_of_le_of_lt (Nat.zero_le b) hb
+  rw [Nat.add_comm, Nat.add_mul_div_right _ _ hn, Nat.div_eq_of_lt hb, Nat.zero_add]
+
+theorem flat_mod (a b n : ℕ) (hb : b < n) : (a * n + b) % n = b := by
+  rw [Nat.add_comm, Nat.add_mul_mod_self_right, Nat.mod_eq_of_lt hb]
